@@ -160,7 +160,17 @@ def damage_positions(rng, nbits_total, lo_bit, cls=None):
     """
     span = nbits_total - lo_bit
     if cls is None:
-        cls = rng.choice(("single", "double", "odd3", "odd", "burst"))
+        cls = rng.choice(("single", "double", "odd3", "odd", "burst", "syndrome"))
+    if cls == "syndrome" and span >= 24 and nbits_total % 8 == 0:
+        # burst (<= 24 bits) whose CRC residue is a single bit / low-weight pattern
+        k = rng.choice((lo_bit, nbits_total - 24, rng.randrange(lo_bit, nbits_total - 23)))
+        target = rng.choice([1 << i for i in range(24)] + [0xF, 0xFF, 3, 0x800001])
+        pos = syndrome_burst(nbits_total // 8, k, target)
+        if pos:
+            return "syndrome", list(pos)
+        cls = "burst"
+    elif cls == "syndrome":
+        cls = "burst"
     if cls == "single" or span < 2:
         return cls, [rng.randrange(lo_bit, nbits_total)]
     if cls == "double":
@@ -186,3 +196,61 @@ def flip(data: bytes, positions) -> bytes:
     for p in positions:
         b[p >> 3] ^= 0x80 >> (p & 7)
     return bytes(b)
+
+
+def syndrome_burst(L, k, target):
+    """Error pattern confined to the 24-bit window at bit offset k of an L-byte frame whose CRC
+    syndrome equals `target` (window -> syndrome is a bijection because gcd(x, G) = 1). Such a burst
+    (<= 24 bits) is in the guaranteed-detectable class; it defeats any check that ignores residue bits."""
+    basis = []
+    for j in range(24):
+        e = bytearray(L)
+        b = k + j
+        e[b >> 3] = 0x80 >> (b & 7)
+        basis.append(refcrc.crc_ref2(bytes(e)))
+    # Gaussian elimination over GF(2): find subset of basis XORing to target
+    rows = [(basis[j], 1 << j) for j in range(24)]
+    piv = {}
+    for val, comb in rows:
+        for bit in range(23, -1, -1):
+            if not (val >> bit) & 1:
+                continue
+            if bit in piv:
+                val ^= piv[bit][0]
+                comb ^= piv[bit][1]
+            else:
+                piv[bit] = (val, comb)
+                break
+    val, comb = target, 0
+    for bit in range(23, -1, -1):
+        if (val >> bit) & 1:
+            if bit not in piv:
+                return None
+            val ^= piv[bit][0]
+            comb ^= piv[bit][1]
+    return tuple(k + j for j in range(24) if (comb >> j) & 1)
+
+
+def length_lie(rng):
+    """A 'frame' whose length field d differs from the number a of payload bytes actually present,
+    with a CRC trailer that is valid for the bytes actually present. Never a well-formed frame."""
+    a = rng.randint(2, 40)
+    d = rng.choice((a + rng.randint(1, 30), max(0, a - rng.randint(1, a)), a + 1))
+    p = rand_unknown_payload(rng, a)
+    body = b"\xd3" + bytes([d >> 8, d & 0xFF]) + p
+    return body + refcrc.crc_ref2(body).to_bytes(3, "big"), a, d
+
+
+def crc_collider(frame: bytes, rng):
+    """Another CRC-valid frame with the SAME header and trailer but a different payload:
+    payload XOR (generator polynomial shifted to a position inside the payload)."""
+    nb = (len(frame) - 3) * 8  # bits covered by the CRC
+    lo = 24 + 16  # keep header and message number untouched
+    if nb - lo < 25:
+        return None
+    shift = rng.randrange(0, nb - lo - 24)  # position of the pattern's lowest bit above the trailer
+    e = refcrc.POLY << shift
+    v = int.from_bytes(frame[:-3], "big") ^ e
+    out = v.to_bytes(len(frame) - 3, "big") + frame[-3:]
+    assert refcrc.crc_ref2(out) == 0 and out[:5] == frame[:5]
+    return out
